@@ -12,6 +12,7 @@ import (
 
 type Clause struct {
 	Kind string // requires, ensures, invariant, lemma, assert
+	Excl []string // exclusive tags (written C01!): when assumed (callee postcondition, loop invariant) the fact is only offered to obligations carrying one of these tags
 	Tags []string
 	Src  string
 	E    Expr
@@ -137,7 +138,7 @@ var directiveKw = map[string]bool{
 	"extern": true, "axiom": true, "canary": true, "callassert": true, "siteassert": true, "cut": true, "trusted": true, "sendassert": true,
 }
 
-var tagRe = regexp.MustCompile(`^\[([A-Za-z0-9_, ]*)\]\s*`)
+var tagRe = regexp.MustCompile(`^\[([A-Za-z0-9_,! ]*)\]\s*`)
 
 func parseTags(s string) ([]string, string) {
 	m := tagRe.FindStringSubmatch(s)
@@ -249,11 +250,18 @@ func readDirectives(path string) ([]rawDirective, error) {
 
 func mkClause(kind, rest, file string, line int) (*Clause, error) {
 	tags, src := parseTags(strings.TrimSpace(rest))
+	var excl []string
+	for i, t := range tags {
+		if strings.HasSuffix(t, "!") {
+			tags[i] = strings.TrimSuffix(t, "!")
+			excl = append(excl, tags[i])
+		}
+	}
 	e, err := parseExpr(src)
 	if err != nil {
 		return nil, fmt.Errorf("%s:%d: %v", file, line, err)
 	}
-	return &Clause{Kind: kind, Tags: tags, Src: src, E: e, Line: line, File: file}, nil
+	return &Clause{Kind: kind, Tags: tags, Excl: excl, Src: src, E: e, Line: line, File: file}, nil
 }
 
 func parseContractFile(path, pkg string, cf *ContractFile) error {
